@@ -2,7 +2,8 @@ SPECIFICATION Spec
 CONSTANTS
   MaxSrv = 9
   MaxCli = 5
+  ReqBuf = 16
   Cfgs <- AllCfgs
   Lite = "lite"
-INVARIANTS TypeOK S1_ExitResult S2_Conservation S2_NoDataLoss S3_StartOnce S5_StdinEOF S6_StartFailure S7_ReplyValue S8_NoStuckCall EmitLeaf
+INVARIANTS TypeOK S1_ExitResult S2_Conservation S2_NoDataLoss S3_StartOnce S5_StdinEOF S6_StartFailure S7_ReplyValue S8_NoStuckCall S9_NoStall EmitLeaf
 CHECK_DEADLOCK FALSE
